@@ -166,12 +166,22 @@ class cooperative_locks:
     """context manager: every lock the library owns (module globals, created at import or later through its `threading`
     / `Lock` / `RLock` names) becomes a CoopLock while managed threads run"""
 
-    def __init__(self, package="spatialpandas"):
+    def __init__(self, package="spatialpandas", third_party=("dask", "fsspec", "retrying")):
         self.package = package
+        self.third_party = third_party
         self.saved = []
 
     def __enter__(self):
         import types
+        # module-level locks of the libraries the code under check calls into while it may be suspended (dask's tokenize lock is
+        # held around the library's own normalize_token functions): the same real lock, taken cooperatively by managed threads
+        for name, mod in list(sys.modules.items()):
+            if mod is None or not any(name == t or name.startswith(t + ".") for t in self.third_party):
+                continue
+            for k, v in list(vars(mod).items()):
+                if isinstance(v, _REAL_LOCK_TYPES):
+                    self.saved.append((mod, k, v))
+                    setattr(mod, k, CoopLock(real=v))
         for name, mod in list(sys.modules.items()):
             if mod is None or not (name == self.package or name.startswith(self.package + ".")):
                 continue
